@@ -176,8 +176,46 @@ def rand_body(r, sets, depth, throw_p, nested_p):
     return body
 
 
+def gen_directed_cancel(r):
+    """aimed at the case splits of C04: fill a set beyond its load factor with force-queued tasks, cancel (directly, through a parent or through a throwing
+    task), then submit through every non-forced path"""
+    nthr = r.choice([1, 1, 2])
+    conc = r.choice([0, 1, 1])
+    heavy = int(conc and r.random() < 0.5)
+    sets = [(conc, heavy, 1, -1, 0)]
+    target = 0
+    if r.random() < 0.3:
+        sets = [(1, 0, 1, -1, 0), (conc, heavy, 1, 0, 0)]
+        target = 1
+    fill = [('s', target, 1, 0, [])] * (nthr + 1 + r.choice([0, 1, 2])) if r.random() < 0.8 else []
+    how = r.random()
+    if how < 0.6:
+        canc = [('c', 0 if len(sets) > 1 and r.random() < 0.6 else target)]
+    elif how < 0.8:
+        canc = [('s', target, 1, 0, [('t',)]), ('k',)] + ([('k',)] * len(fill))
+    else:
+        canc = []
+        sets[target] = sets[target][:4] + (1,)
+    sub = []
+    for _ in range(r.randint(1, 3)):
+        x = r.random()
+        if x < 0.6:
+            sub.append(('s', target, 0, int(r.random() < 0.3), []))
+        elif x < 0.85:
+            sub.append(('b', target, 0, r.choice([1, 2, 3]), []))
+        else:
+            sub.append(('s', target, 1, 0, []))
+    ops = fill + canc + sub + ([('w', target)] if r.random() < 0.7 else [])
+    threads = [(int(r.random() < 0.3), 0, ops)] + [(int(r.random() < 0.7), 0, [('k',)] * r.randint(1, 4)) for _ in range(r.choice([0, 1, 2]))]
+    budget = 110
+    return {'budget': budget, 'nthr': nthr, 'plf': r.choice([0, 1, 32]), 'wr': r.choice([0, 0, 2, 40]), 'sets': sets, 'threads': threads,
+            'sched': [r.randrange(0, 60) for _ in range(budget)] if r.random() < 0.5 else [0] * budget}
+
+
 def gen_case(r, flavour='mixed'):
     """flavours bias the generator at the case splits of the proofs: 'barrier' (C02), 'cancel' (C04), 'exc' (C05), 'force' (C47)"""
+    if flavour == 'cancel' and r.random() < 0.4:
+        return gen_directed_cancel(r)
     nthr = r.choice([0, 1, 1, 2, 2, 3])
     if flavour in ('force',) and r.random() < 0.8:
         nthr = r.choice([1, 1, 2, 3])
@@ -261,7 +299,11 @@ def run_lockstep(ctx, exe, cases, judge, timeout=900):
     for c, o in zip(cases, outs):
         p = parse_out(o)
         if p is None or 'error' in p:
-            ctx.broken.append('lockstep harness output unreadable for %s: %s' % (case_line(c)[:200], (o or '')[:200]))
+            if (o or '').startswith('CRASH'):
+                ctx.violation('the real code crashed (%s) under this program and schedule: %s' % (o.strip(), case_line(c)[:400]),
+                              {'case': case_line(c), 'output': o, 'cmd': 'echo "<case>" | build/harness/h_taskset-*'})
+            else:
+                ctx.broken.append('lockstep harness output unreadable for %s: %s' % (case_line(c)[:200], (o or '')[:200]))
             continue
         terms.append(case_term(c, p))
         kept.append((c, p, o))
@@ -304,11 +346,32 @@ def gen_dcase(r, want=None):
         d['bulk'] = r.choice([1, 2, 5])
     if want == 'known':
         d.update({'cls': r.choice([1, 2]), 'force': 0, 'skip': 0, 'nthr': 1, 'blockers': 40, 'preOut': 0, 'canceled': 1, 'recursive': 0, 'depth': 0, 'bulk': 0})
+    if want == 'cancel_over':      # cancelled set whose outstanding count exceeds every task-set threshold, pool not overloaded
+        n = r.choice([1, 2])
+        d.update({'cls': r.choice([0, 0, 1, 2]), 'force': 0, 'skip': int(r.random() < 0.3), 'nthr': n, 'blockers': n, 'preOut': d['mult'] * n + 2, 'canceled': 1,
+                  'recursive': 0, 'depth': 0, 'bulk': 0})
     return d
 
 
 def witness_d_c04():
     return {'cls': 1, 'force': 0, 'skip': 0, 'nthr': 1, 'blockers': 40, 'preOut': 0, 'canceled': 1, 'recursive': 0, 'depth': 0, 'prlf2': 3, 'mult': 4, 'bulk': 0}
+
+
+def d_fallback(ctx, exe, dcases, on_verdict):
+    """the Coq judge does not evaluate (e.g. the translator rejected a changed function): still look for a concrete failing input by evaluating the
+    implementation-side properties directly on the harness output (mirror of d_check_C04 / d_check_C47 / d_bulk_ok of Model/TaskSetCheck.v)"""
+    outs = ls_common.run_cases(exe, [d_line(d) for d in dcases], jobs=4)
+    for d, o in zip(dcases, outs):
+        v = d_parse(o)
+        if v is None:
+            continue
+        out, wr, n, plf, lf, canc, incall, fout, aout, ran = v
+        overloaded = (d['recursive'] and d['nthr'] > 0 and wr > (n * d['prlf2']) // 2) or wr > plf
+        in_domain = d['cls'] in (1, 2) and not d['force'] and not d['skip'] and d['depth'] < 32 and overloaded and canc
+        if canc and d['cls'] != 3 and (incall or ran) and not in_domain:
+            on_verdict(2, d, v, o)
+        elif d['force'] and n >= 1 and incall:
+            on_verdict(2, d, v, o)
 
 
 def run_decisions(ctx, exe, dcases, judge):
@@ -343,7 +406,7 @@ def prove_and_build(ctx, pid):
     if errs:
         ctx.broken.append('translator T(taskset): ' + '; '.join(errs)[:400])
     ctx.cov['translated_functions'] = 21 - len(errs)
-    ctx.prove(tie_files=['GenTie/TaskSetGenTie.v'], models=['Model/TaskSetCheck.v', 'Model/%sCheck.v' % pid])
+    ctx.prove(tie_files=['GenTie/TaskSetGenTie.v'], models=['Model/TaskSetCheck.v', 'Model/C02Check.v', 'Model/C04Check.v', 'Model/C05Check.v', 'Model/C47Check.v'])
     exe = dv.build_harness('h_taskset', ['h_taskset.cpp'])
     ctx.phase('build')
     return exe
@@ -352,6 +415,8 @@ def prove_and_build(ctx, pid):
 def lockstep_phase(ctx, exe, judge, flavours, n, witnesses=(), on_verdict=None, what='property'):
     """generic lockstep phase; on_verdict(v, c, p, o) handles verdicts 2 and 4"""
     r = ctx.rng
+    if ctx.broken and ctx.quick:      # something no longer checks: search harder for a concrete failing input
+        n *= 3
     cases = list(witnesses) + [gen_case(r, flavours[i % len(flavours)]) for i in range(n)]
     res = run_lockstep(ctx, exe, cases, judge)
     if res is None:
@@ -367,6 +432,33 @@ def lockstep_phase(ctx, exe, judge, flavours, n, witnesses=(), on_verdict=None, 
             on_verdict(v, c, p, o)
         elif v == 1:
             ctx.broken.append('correspondence L: real trace differs from the model on ' + case_line(c)[:300] + ' -> ' + o[:300])
+    # search ladder (DESIGN 5): model and implementation disagree but no property failure seen yet -> re-run the disagreeing programs under many more
+    # schedules (fixed-priority, bursty, random) looking for a concrete failing input
+    differ = [c for c, p, o, v in res if v == 1]
+    if differ and not any(v == 2 for _, _, _, v in res):
+        extra = []
+        for c in differ[:6]:
+            for j in range(36):
+                c2 = dict(c)
+                if j < 6:
+                    c2['sched'] = [j] * c['budget']
+                elif j < 20:
+                    sched = []
+                    while len(sched) < c['budget']:
+                        sched += [r.randrange(0, 60)] * r.randint(2, 15)
+                    c2['sched'] = sched[:c['budget']]
+                else:
+                    c2['sched'] = [r.randrange(0, 60) for _ in range(c['budget'])]
+                extra.append(c2)
+        res2 = run_lockstep(ctx, exe, extra, judge) or []
+        ctx.cov['ladder_runs'] = len(res2)
+        ctx.cov['evaluations'] += len(extra)
+        found = False
+        for c, p, o, v in res2:
+            if v == 2 and not found:
+                found = True
+                on_verdict(v, c, p, o)
+        hist[2] = hist.get(2, 0) + sum(1 for _, _, _, v in res2 if v == 2)
     ctx.cov['evaluations'] += len(cases)
     ctx.cov['distinct_nontrivial'] += len(distinct)
     ctx.cov['traces_validated_against_impl'] += hist.get(0, 0) + hist.get(4, 0)
@@ -386,10 +478,13 @@ def lockstep_phase(ctx, exe, judge, flavours, n, witnesses=(), on_verdict=None, 
 
 def decision_phase(ctx, exe, judge, n, witnesses=(), on_verdict=None):
     r = ctx.rng
-    ds = list(witnesses) + [gen_dcase(r, 'known' if i % 17 == 5 else None) for i in range(n)]
+    if ctx.broken and ctx.quick:      # something no longer checks: search harder for a concrete failing input
+        n *= 3
+    ds = list(witnesses) + [gen_dcase(r, 'known' if i % 17 == 5 else ('cancel_over' if i % 5 == 2 else None)) for i in range(n)]
     res = run_decisions(ctx, exe, ds, judge)
     if res is None:
         ctx.broken.append('correspondence D: the decision judge no longer evaluates')
+        d_fallback(ctx, exe, ds, on_verdict)
         return []
     hist = {}
     for d, v, o, x in res:
